@@ -25,6 +25,17 @@ def run(ctx):
     import random
     import pycode  # translator validation: generated Lean definitions vs the real functions (harness/pycode.py)
     pycode.check(res, random.Random(ctx["seed"] * 7919 + 77), ctx["tier"], ["uid", "params", "schedule", "structparams"])
+    # every decodable kind under every decoding context (no device / thermostat count / schema / product type) and at the
+    # device level (handled twice, by two devices, after the device's data changed): harness/c05_ctx.py, Props/C05Ctx.lean
+    import c05_ctx
+    from common import Parts
+    parts = Parts(res)
+    parts.run("decoding contexts and device-level purity", c05_ctx.run_ctx, ctx, res)
+    parts.finish()
+    res.rule += (" || every class with a decode_message of its own (reflection) x payloads of the generators above + noise x 9-10 decoding contexts "
+                 "(no device, fresh device, thermostat count 0/1/3, two schemas, product P/I, combinations): results grouped by what the kind may read "
+                 "(C05.ctx_irrelevant_*, thermostat_reads_only_the_count, regdata_reads_only_the_schema) must agree; decoded twice; payload compared; "
+                 "device level: one frame object handled by a device, again, by a second device, and a fresh frame after the device's data changed")
     res.failures.sort(key=lambda f: f["kind"] != "spec")
     return res
 
@@ -32,6 +43,12 @@ def run(ctx):
 def replay(ctx):
     f = ctx["replay"].get("failure") or ctx["replay"].get("first_difference")
     inp = f["input"]
+    if inp.get("kind") in ("ctx", "ctx-device"):
+        import c05_ctx
+        res = Result("C05")
+        res.rule = "replay of one recorded payload under every decoding context and through the device-level steps"
+        c05_ctx.replay_one(inp, res)
+        return res
     if "family" in inp:
         return c05_params.replay(ctx)
     return c05_sensors.replay(ctx)
